@@ -266,9 +266,9 @@ func (e *Engine) checkQueuePreemption(st *Step, a *world.Alloc, app *world.App, 
 	_ = ineligibleKinds
 	// ---- C08: guarantees and effect ----
 	// attempt precondition: a queue on the asker's path has guaranteed resources it is still under. Necessary
-	// condition, independent of the order in which the core evaluates: with the ask added and the announced victims
-	// below that queue removed (usage net of what is already being preempted), the queue is not above its guaranteed
-	// amount in a type the ask needs. Certainly false only when this fails for every guaranteed queue of the path.
+	// condition, independent of the order in which the core evaluates, judged on usage net of what is already being
+	// preempted and of the announced victims below the queue. Certainly false only when it fails for every guaranteed
+	// queue of the path.
 	hasGuarantee, atOrAbove := false, true
 	pathDetail := ""
 	for _, q := range pathOf(pre, leaf) {
@@ -282,16 +282,22 @@ func (e *Engine) checkQueuePreemption(st *Step, a *world.Alloc, app *world.App, 
 				below.AddTo(v.Res)
 			}
 		}
-		exceeded := false
+		// "still under": certainly not when every type of the ask that this queue guarantees has been reached, even
+		// with the victims below the queue gone. The ask itself is not added: the statement does not ask for the ask to
+		// fit within the guarantee. A queue that guarantees none of the ask's types cannot be judged.
+		judged, reached := 0, 0
 		for t, need := range a.Res {
 			if need <= 0 {
 				continue
 			}
-			if g, ok := q.Guaranteed[t]; ok && q.Allocated[t]-q.Preempting[t]+need-below[t] > g {
-				exceeded = true
+			if g, ok := q.Guaranteed[t]; ok {
+				judged++
+				if q.Allocated[t]-q.Preempting[t]-below[t] >= g {
+					reached++
+				}
 			}
 		}
-		if !exceeded {
+		if judged == 0 || reached < judged {
 			atOrAbove = false
 		}
 		pathDetail += fmt.Sprintf(" %s guaranteed %s allocated %s preempting %s victims below it %s;", q.Path, q.Guaranteed, q.Allocated, q.Preempting, below)
@@ -299,7 +305,7 @@ func (e *Engine) checkQueuePreemption(st *Step, a *world.Alloc, app *world.App, 
 	if !hasGuarantee {
 		e.violate("C08", "preemption-without-guarantee", "", fmt.Sprintf("queue preemption for ask %s although no queue on the path of %s has guaranteed resources", a.Key, leaf))
 	} else if atOrAbove {
-		e.violate("C08", "asker-queue-not-under-guarantee", "", fmt.Sprintf("queue preemption for ask %s %s although every guaranteed queue on the path of %s is above its guaranteed share in a type the ask needs even with the victims removed:%s", a.Key, a.Res, leaf, pathDetail))
+		e.violate("C08", "asker-queue-not-under-guarantee", "", fmt.Sprintf("queue preemption for ask %s %s although every guaranteed queue on the path of %s has reached its guaranteed share in every type the ask needs even with the victims removed:%s", a.Key, a.Res, leaf, pathDetail))
 	}
 	// victim queues above guarantee
 	byLeaf := map[string][]*world.Alloc{}
